@@ -54,10 +54,15 @@ func verif_C07_data_cut() {
 	be.lmtpFn = func(_ *vsession, r io.Reader, _ StatusCollector) error { return consume(r) }
 	s, _ := verifServer(be)
 	s.LMTP = lmtp
+	// a size limit somewhere around the message (0 = none): where the budget
+	// runs out is one more place at which the stream may end
+	limit := []int{0, 2, L + 1, verifBound(0, 1)}[verifChoice(3+verifBound(0, 1))]
+	s.MaxMessageBytes = int64(limit)
 	vc, _, _ := verifServe(s, in[:cut], final)
 
 	delivered := in[len(head):cut]
 	body, _, complete := refUnstuff(delivered)
+	tooLarge := limit > 0 && len(body) > limit
 	verifAssert(called, "C07.data-called")
 	reps, wf := verifParseReplies(vc.out)
 	verifAssert(wf, "C07.replies-wellformed")
@@ -68,8 +73,12 @@ func verif_C07_data_cut() {
 			positives++
 		}
 	}
-	verifObserve("c07", msg, cut, lmtp, perRcpt, complete, rerr == io.EOF, len(got), positives)
-	if complete {
+	verifObserve("c07", msg, cut, lmtp, perRcpt, limit, complete, rerr == io.EOF, len(got), positives)
+	if complete && tooLarge {
+		verifReach("C07.complete-too-large")
+		verifAssert(rerr != nil && rerr != io.EOF && len(got) <= limit, "C07.too-large-message-never-eof")
+		verifAssert(positives == 0, "C07.too-large-message-no-positive-reply")
+	} else if complete {
 		verifReach("C07.complete")
 		verifAssert(rerr == io.EOF, "C07.complete-message-ends-with-eof")
 		verifAssert(string(got) == string(body), "C07.complete-message-intact")
